@@ -95,3 +95,28 @@ func be32(b []byte, off int) uint32 {
 }
 
 func vhFloatBits(f float64) uint64 { return mathFloat64bits(f) }
+
+// vhHeaderPage: a page 1 with a valid header (UTF-8, format 4, rollback
+// journal mode) and free change counter / schema cookie; the b-tree part is an
+// empty table leaf.
+func vhHeaderPage(pageSize int, change, cookie uint32) []byte {
+	b := make([]byte, pageSize)
+	copy(b, "SQLite format 3\x00")
+	ps := pageSize
+	if ps == 65536 {
+		ps = 1
+	}
+	b[16], b[17] = byte(ps>>8), byte(ps)
+	b[18], b[19] = 1, 1
+	b[21], b[22], b[23] = 64, 32, 32
+	put32 := func(off int, v uint32) {
+		b[off], b[off+1], b[off+2], b[off+3] = byte(v>>24), byte(v>>16), byte(v>>8), byte(v)
+	}
+	put32(24, change)
+	put32(40, cookie)
+	put32(44, 4)
+	put32(56, 1)
+	b[100] = 0x0d // empty table leaf
+	b[105], b[106] = byte(pageSize>>8), byte(pageSize)
+	return b
+}
